@@ -132,10 +132,14 @@ func cmdCheck(args []string) int {
 			for k := range r.Ex.violations {
 				v := &r.Ex.violations[k]
 				key := v.Label + "|" + v.KnownID + "|" + v.Kind
-				perLabel[key]++
-				if perLabel[key] > 3 {
+				// replay up to 6 candidates per label, preferring distinct nondet vectors (several
+				// schedules of a threaded harness share one vector and replay identically)
+				vk := key + "|" + fmtVec(v.Vec)
+				if perLabel[vk] > 0 || perLabel[key] >= 6 {
 					continue
 				}
+				perLabel[vk]++
+				perLabel[key]++
 				cases = append(cases, nativeCase{Harness: r.Cfg.Func, Vec: v.Vec, Tier: tier, Sched: schedOf(v.Decisions)})
 				refs = append(refs, ref{res: r, viol: v})
 			}
